@@ -202,6 +202,7 @@ def alterations(curve, secret, msg, tier, raw_len, pub_len, dense):
     out += [['msg', msg + b'\x00']] + ([['msg', msg[:-1]]] if msg else [])
     out += [['sigbit', i] for i in bits(raw_len)]
     out += [['relabel', k] for k in OTHER_SIG_KINDS]
+    out += [['sigchar', -1], ['sigchar', -3], ['sigchar', 12], ['keychar', -1], ['keychar', 9]]
     if curve != 'BL':
         out += [['sigdeg', d] for d in ('zero', 'ones', 'r=0', 's=0', 'r=n', 's=n', 'r=n-1', 's=n-1', 'swap')]
     else:
@@ -251,6 +252,13 @@ def apply_alt(curve, secret, msg, kind, raw, alt):
         if new is None or new == raw:
             return None
         return pk_str, encode_sig(kind, new), msg, 'degenerate signature (r or s replaced by 0 / order / all-ones)', True, expect
+    if a in ('sigchar', 'keychar'):
+        # one CHARACTER of the base58 text replaced: the checksum no longer matches, such a string is not a signature / key at all
+        txt = sig_str if a == 'sigchar' else pk_str
+        pos = alt[1] if alt[1] >= 0 else len(txt) + alt[1]
+        new = txt[:pos] + ('2' if txt[pos] != '2' else '3') + txt[pos + 1:]
+        what = 'signature text with one character replaced (bad checksum)' if a == 'sigchar' else 'key text with one character replaced (bad checksum)'
+        return (pk_str, new, msg, what, False, expect) if a == 'sigchar' else (new, sig_str, msg, what, False, expect)
     if a == 'key':
         c2, s2 = alt[1], alt[2]
         pub2 = sigref.public_from_secret(c2, s2)
@@ -283,7 +291,7 @@ def judge_alt(curve, secret, msg, generic, alt, kind, raw):
             V.append((f'CHECK_SIGNATURE does not return True for the other (generic / curve-specific) form of a valid signature [{cname}]', detail))
         return V, lab, wf, False
     # expected: reject.  Cross-check with the independent verifier where it is cheap.
-    if curve != 'BL' and alt[0] not in ('key', 'relabel') and not invalid_key:
+    if curve != 'BL' and alt[0] not in ('key', 'relabel', 'sigchar', 'keychar') and not invalid_key:
         rawsig = decode_sig(sig_str)[1]
         pubb = b58.dec(sigref.PK_KIND[curve], pk_str)
         if sigref.verify(curve, pubb, m, rawsig):
